@@ -19,12 +19,13 @@ META = {
              'every generated case).',
         design_ref='DESIGN.md section 6, C01', note=NOTE_ROUTING, technique=TECH),
     'C02': dict(
-        text='Theorems Props.C02_curly, C02_detect, C02_jsr_no_panic (Coq, no axioms): under CurlyRouter routing never panics and the '
-             'outcome meets the declarative cascade over the set of admitting routes (404 / 405 with exactly their methods / 415 / '
-             '406 / one function of the surviving routes); detectRoute equals the cascade on any candidate list and is '
-             'order-independent (shared by both routers); under RouterJSR311 a selected route never makes parameter extraction '
-             'panic. The JSR311 cascade over the admitting SET is checked on implementation outcomes with the proved-sound '
-             'admission predicate (completeness of the JSR311 matcher is not proved). Defects F5, F6 found and repaired.',
+        text='Theorems Props.C02_curly, C02_jsr, C02_detect, C02_jsr_no_panic (Coq, no axioms): under CurlyRouter AND under '
+             'RouterJSR311 routing never panics and the outcome meets the declarative cascade over the SET of routes of the '
+             'claiming service whose template admits the path (404 / 405 with exactly their methods / 415 / 406 / one function of '
+             'the surviving routes): both matchers are proved sound and complete for their structural reading; detectRoute equals '
+             'the cascade on any candidate list and is order-independent. RouterJSR311 under the boolean premise jsr_best_agree '
+             '(path_expression.go reads the templates of the claiming service structurally; evaluated on every generated case). '
+             'Defects F5, F6 found and repaired.',
         design_ref='DESIGN.md section 6, C02', note=NOTE_ROUTING, technique=TECH),
     'C04': dict(
         text='Theorems Props.C04_curly and C04_jsr (Coq, no axioms): under both routers the parameter map of an invoked route is '
